@@ -69,8 +69,8 @@ def cstr(s):
     return '"' + s.replace('\\', '\\\\').replace('"', '\\"') + '"'
 
 
-def tokens_inc(src, checks=''):
-    assert len(tokenize(src)) < 320, 'skeleton too long for the token feeder'
+def tokens_inc(src, checks='', maxtok=320):
+    assert len(tokenize(src)) < maxtok, 'skeleton too long for the token feeder'
     body = ''.join('\tpush(%s, %s, %d);\n' % (k, cstr(l) if l is not None else '0', ln) for k, l, ln in tokenize(src))
     return 'static void feed_tokens(void) {\n%s}\nstatic void checks(void) {\n%s}\n' % (body, checks)
 
@@ -79,7 +79,7 @@ UNITS = ['decl', 'stmt', 'expr', 'eval', 'init', 'type', 'scope', 'attr', 'map',
 OVERRIDES = ['error', 'fatal', 'xmalloc', 'xreallocarray']
 
 
-def parse_inst(name, src, expect_error, fam, checks='', record=False, errline=None, errmsg=None, target='x86_64-sysv', timeout=300, unwind=10, extra_defs=None, witness=True):
+def parse_inst(name, src, expect_error, fam, checks='', record=False, errline=None, errmsg=None, target='x86_64-sysv', timeout=300, unwind=10, extra_defs=None, witness=True, maxtok=320):
     defs = {'EXPECT_ERROR': 1 if expect_error else 0, 'TARGETNAME': '"%s"' % target}
     if record:
         defs['RECORD'] = None
@@ -91,8 +91,10 @@ def parse_inst(name, src, expect_error, fam, checks='', record=False, errline=No
         defs['WITNESS_IN_ERROR'] = None
     if extra_defs:
         defs.update(extra_defs)
+    if maxtok != 320:
+        defs['MAXTOK'] = maxtok
     ov = OVERRIDES + (['emitfunc', 'emitdata'] if record else [])
     return Inst(name, 'h_parse.c', defs, units=UNITS, overrides=ov, native_units=['scan', 'pp'], unwind=unwind, family=fam, timeout=timeout, mem_gb=12,
                 unwindset=['mapinit.0:70', 'strlen.0:40', 'strcmp.0:40', 'memcmp.0:40', 'scopeinit.0:16', '__CPROVER_file_local_map_c_hash.0:40',
-                           '__CPROVER_file_local_map_c_keyindex.0:66', 'mapfree.0:66', 'mapput.0:66', 'mapput.1:66'], files={'tokens.inc': tokens_inc(src, checks)},
+                           '__CPROVER_file_local_map_c_keyindex.0:66', 'mapfree.0:66', 'mapput.0:66', 'mapput.1:66'], files={'tokens.inc': tokens_inc(src, checks, maxtok)},
                 witness=witness, bound={'skeleton': src.strip()[:120], 'expect_error': expect_error})
